@@ -97,6 +97,7 @@ def check(tier, seed):
         extra = [i for i in range(nshort) if i not in badset and judge(cases[i], io[i])]
         for i in extra[:2]:
             c.violation("ForestIndex: " + judge(cases[i], io[i]), {"component": "c16", "case": cases[i], "impl": io[i]}, True)
+        lib.config_differential(c, "c16", ["c16.cpp"], cases[:nshort], io[:nshort], judge=judge)
         # graphs beyond the range of narrow index types (n > 2^8, n > 2^16): judged against the property text only
         bigs = [gen.graph_tokens(g) for g in gen.big_graphs(c.rng)]
         bio = lib.run_lines([exe], bigs, par=1, timeout=600)
